@@ -34,7 +34,7 @@ def run_task(task):
     name = task['function']
     f = getattr(bct, name)
     rs = np.random.RandomState(task['bseed'])
-    kw = ei.build(name, f, task['kind'], rs)
+    kw = ei.build(name, f, task['kind'], rs, task.get('flags') or None)
     out = {'task': task, 'fails': [], 'status': 'ok', 'arrays': 0, 'notes': []}
     if kw is None:
         out['status'] = 'nobuild'
@@ -118,14 +118,18 @@ def main():
     if ck.replay:
         tasks = [json.load(open(ck.replay))['case']['task']]
     else:
-        reps = 1 if ck.tier == 'quick' else 16
+        reps = 1 if ck.tier == 'quick' else 8
         tasks = []
         for name in sorted(pub):
             has_copy = 'copy' in inspect.signature(pub[name]).parameters
+            combos = ei.flag_combos(pub[name], ck.rs, cap=16)
+            ck.count('flag_combinations', len(combos))
             for kind in ei.KINDS:
                 for _ in range(reps):
-                    for cp in ([None, False] if has_copy else [None]):
-                        tasks.append({'function': name, 'kind': kind, 'bseed': int(ck.rs.randint(2 ** 31)), 'seed': int(ck.rs.randint(2 ** 31)), 'copy': cp})
+                    for fl in combos:
+                        for cp in ([None, False] if has_copy else [None]):
+                            tasks.append({'function': name, 'kind': kind, 'flags': fl, 'bseed': int(ck.rs.randint(2 ** 31)),
+                                          'seed': int(ck.rs.randint(2 ** 31)), 'copy': cp})
     results = pmap(run_task, tasks)
     ran = {}
     for r in results:
@@ -145,9 +149,12 @@ def main():
                 ck.count(n + ':' + fn)
         nt = r['status'] == 'ok' and r['arrays'] > 0
         ck.case(sample={'function': fn, 'kind': t['kind'], 'copy': t['copy'], 'arrays': r['arrays']} if nt and fn[0] in 'cgr' else None,
-                nontrivial_key=digest([fn, t['kind'], t['bseed'], t['copy']]) if nt else None)
+                nontrivial_key=digest([fn, t['kind'], t['bseed'], t['copy'], t.get('flags')]) if nt else None)
         for pred, p, info in r['fails']:
-            ck.violation(fn, pred, {'task': t, 'parameter': p, 'info': info, 'status': r['status']}, {'kind': t['kind'], 'parameter': p})
+            ck.violation(fn, pred, {'task': t, 'call': '%s(<%s arguments, builder seed %d>%s%s)' % (
+                fn, t['kind'], t['bseed'], ''.join(', %s=%r' % kv for kv in sorted((t.get('flags') or {}).items())),
+                ', copy=False' if t['copy'] is False else ''), 'parameter': p, 'info': info, 'status': r['status']},
+                {'kind': t['kind'], 'parameter': p})
     ck.dist['functions_exercised'] = len(ran)
     ck.dist['functions_that_never_returned_normally (counted, not failed)'] = sorted(fn for fn, n in ran.items() if n == 0)
     ck.cov['traces_validated_against_impl'] = sum(1 for r in results if r['status'] != 'nobuild')
